@@ -8,6 +8,7 @@ import (
 	"strings"
 	"testing"
 
+	"go.opentelemetry.io/collector/exporter/exporterhelper/internal/request"
 	"go.opentelemetry.io/collector/pdata/pcommon"
 	"go.opentelemetry.io/collector/pdata/plog"
 	"go.opentelemetry.io/collector/pdata/pmetric"
@@ -330,6 +331,15 @@ func c04ObsMetrics(r c04Request) (items []string, count, units, bytes int) {
 		}
 	}
 	return items, r.ItemsCount(), len(items), len(b)
+}
+
+func init() {
+	c04RealUnit = "batcher-real"
+	c04RealSignals = []c04RealSig{
+		{c04Logs, func() map[RequestSizerType]request.Sizer[Request] { return NewLogsQueueBatchSettings().Sizers }},
+		{c04Traces, func() map[RequestSizerType]request.Sizer[Request] { return NewTracesQueueBatchSettings().Sizers }},
+		{c04Metrics, func() map[RequestSizerType]request.Sizer[Request] { return NewMetricsQueueBatchSettings().Sizers }},
+	}
 }
 
 func TestVerif(t *testing.T) {
